@@ -166,6 +166,20 @@ var shapes = []shape{
 		s.Handler = append(s.Handler, prog.Act{Op: 'R'})
 		return s
 	}},
+	{"failed-send-between", func(r *payload.SplitMix, cfg prog.Config, manual bool) *prog.Script {
+		// sends that the sender's own encoder rejects, between sends that succeed: nothing of a failed
+		// send may reach the peer, alone or inside a later message
+		s := &prog.Script{}
+		for i := 0; i < 2+r.Intn(4); i++ {
+			if r.Intn(2) == 0 {
+				s.Client = append(s.Client, prog.Act{Op: 'm'})
+			}
+			s.Client = append(s.Client, prog.Act{Op: 's', Size: sizes(r, cfg) % 5000})
+		}
+		s.Client = append(s.Client, prog.Act{Op: 'm'}, prog.Act{Op: 's', Size: 3}, prog.Act{Op: 'h'}, prog.Act{Op: 'R'})
+		s.Handler = []prog.Act{{Op: 'R'}, {Op: 'm'}, {Op: 's', Size: sizes(r, cfg) % 5000}}
+		return s
+	}},
 	{"multi-sender-client", func(r *payload.SplitMix, cfg prog.Config, manual bool) *prog.Script {
 		return &prog.Script{Client: []prog.Act{{Op: 'P', Size: 2 + r.Intn(2)}, {Op: 'h'}, {Op: 'R'}}, Handler: []prog.Act{{Op: 'R'}, {Op: 's', Size: 5}}}
 	}},
